@@ -180,7 +180,7 @@ def f6_files(tier):
             objs = [(paths[i], _f6_enc(t, n)) for i, (t, n) in enumerate(elems)]
             objs2 = [(paths[i], _f6_enc(t, n + 1)) for i, (t, n) in enumerate(elems)]
             sized = all(t != 'String' for t, _ in elems)
-            layouts = ['contiguous'] + (['interleaved'] if sized else [])
+            layouts = ['contiguous'] + (['interleaved'] if (sized or ename == 'str') else [])
             for layout in layouts:
                 il = layout == 'interleaved'
                 if il:
